@@ -220,7 +220,7 @@ def run_check(tier, seed):
     if not ok:
         broken.append({'kind': 'harness-build', 'log': out[-3000:]})
         return finish(ev, PROP, findings, broken)
-    n = 130 if tier == 'quick' else 6000
+    n = 130 if tier == 'quick' else 3000
     quick = tier == 'quick'
     rng = random.Random(seed)
     cases = gen(rng, n, targeted='some' if quick else 'full')
@@ -281,3 +281,31 @@ def run_check(tier, seed):
         if key in seen: continue
         seen.add(key); uniq.append(f)
     return finish(ev, PROP, uniq, broken)
+
+def replay(path):
+    """re-run the failing inputs of a replay file on both real handlers and re-evaluate the C20 predicate"""
+    r = json.load(open(path))
+    ok, out, bindir = cargo_build(['codec_async'], features=['async-io'])
+    if not ok:
+        print(out[-2000:]); return 2
+    items = r.get('failing') or [b for b in r.get('broken', []) if b.get('case')]
+    bad = 0
+    for n, f in enumerate(items):
+        i = f.get('input') or f.get('case')
+        if not i or 'harness_line' not in i: continue
+        rc, o = run([os.path.join(bindir, 'codec_async')], input=i['harness_line'] + '\n', timeout=120)
+        obs = {}
+        for line in o.split('\n'):
+            if line.startswith('id='):
+                x = S.parse_obs(line); obs[x['mode']] = x
+        c = {'id': i['id'], 'tr': i['tr'], 'cap': i['cap'], 'req': bytes.fromhex(i['req']), 'remap': 'fail' if i['remap'] == 'fail' else tuple(i['remap']),
+             'fill': i.get('fill', 165), 'fs': ('raw',), 'wf': None}
+        print('case %d: %s' % (n, i['harness_line'][:300]))
+        for m in ('sync', 'async'):
+            if m in obs: print('  %-5s res=%s calls=%s packets=%s mem=%s' % (m, obs[m]['res'], [x.split('(')[0] for x in obs[m]['calls']], [p.hex() for p in obs[m]['packets']], obs[m]['mem'].hex()[:96]))
+        if len(obs) == 2:
+            same = view(c, obs['sync']) == view(c, obs['async'])
+            print('  -> %s' % ('agree' if same else 'DIFFER'))
+            bad += 0 if same else 1
+    print('VIOLATION property=%s replay=%s' % (PROP, path) if bad else 'no difference reproduced')
+    return 1 if bad else 0
